@@ -49,15 +49,20 @@ def _on_alarm(_sig, _frm):
 
 def classify(prog, cfg):
     import signal
-    old = signal.signal(signal.SIGALRM, _on_alarm)
-    signal.alarm(_BUDGET_S)
-    try:
+    import threading
+    if threading.current_thread() is not threading.main_thread():
+        # (a replay runs in a helper thread with a large stack: no alarm there, the budget is for the sweeps)
         st, r = drive.compile_recipe(prog, cfg)
-    except CompileTimeout as e:
-        st, r = "crash", e
-    finally:
-        signal.alarm(0)
-        signal.signal(signal.SIGALRM, old)
+    else:
+        old = signal.signal(signal.SIGALRM, _on_alarm)
+        signal.alarm(_BUDGET_S)
+        try:
+            st, r = drive.compile_recipe(prog, cfg)
+        except CompileTimeout as e:
+            st, r = "crash", e
+        finally:
+            signal.alarm(0)
+            signal.signal(signal.SIGALRM, old)
     if st == "ok":
         return "TEAL", None
     if st == "pterr":
